@@ -24,7 +24,24 @@ impl SrcLines {
         let v = self.cache.entry(file.to_string()).or_insert_with(|| {
             std::fs::read_to_string(file).map(|s| s.lines().map(|l| l.trim().to_string()).collect()).unwrap_or_default()
         });
-        v.get((line as usize).wrapping_sub(1)).cloned().unwrap_or_default()
+        let idx = (line as usize).wrapping_sub(1);
+        let text = v.get(idx).cloned().unwrap_or_default();
+        // a line such as `_ => unreachable!(),` occurs many times in one file: qualify it with the two
+        // non-empty lines above it, so that the key still names one site and survives line shifts
+        let generic = text.len() < 28 && (text.contains("unreachable!") || text.contains("unwrap()") || text.contains("panic!") || text == "}");
+        if generic && idx < v.len() {
+            let mut ctx: Vec<&str> = Vec::new();
+            let mut k = idx;
+            while k > 0 && ctx.len() < 2 {
+                k -= 1;
+                if !v[k].is_empty() {
+                    ctx.push(&v[k]);
+                }
+            }
+            ctx.reverse();
+            return format!("{} // {}", ctx.join(" // "), text);
+        }
+        text
     }
 }
 
